@@ -58,6 +58,29 @@ func genC08E2E(p *sim.Plan, r *sim.Rand) {
 		kind := []string{"nsp", "room", "except", "direct"}[r.Intn(4)]
 		p.Ops = append(p.Ops, sim.Op{At: at, Actor: 0, Kind: kind, I: []int64{int64(i + 1), int64(r.Intn(8)), int64(r.Intn(8)), int64(r.Intn(4) / 3)}})
 	}
+	if p.Mode == "goclient" {
+		// a handler that takes its time: events received before the cut are still waiting for their
+		// turn when the connection goes (plus a cluster of events right before the cut)
+		h := []int64{0, 0, 100, 5000, 50000}[r.Intn(5)]
+		p.Set("handler_us", h)
+		for k := 0; k < r.Range(2, 8); k++ {
+			// arrival = emission + latency: aim at the instant of the cut
+			at := disc - p.C("lat_us")*1000 - r.I64n(h*1000*4+2_000_000)
+			if at < 100_000_000 {
+				at = 100_000_000
+			}
+			n++
+			p.Ops = append(p.Ops, sim.Op{At: at, Actor: 0, Kind: "nsp", I: []int64{int64(n), 0, 0, int64(r.Intn(4) / 3)}})
+		}
+		if r.Bool(0.6) {
+			// the dispatch of a received event against the end of its connection
+			p.Stall = DrawStall(r, 200_000_000, "client_socket.go", "client_manager.go", "store.go", "ordered_runner.go")
+			p.Stall.Focus = []string{"client_socket.go", "client_manager.go", "store.go", "ordered_runner.go"}
+			p.Stall.SitePct = 100
+			p.Stall.RatePPM = []int{20000, 100000, 300000}[r.Intn(3)]
+			p.Stall.MaxNs = []int64{100_000, 2_000_000, 20_000_000}[r.Intn(3)]
+		}
+	}
 	p.Horizon = disc + gap + int64(8*time.Second)
 }
 
@@ -455,13 +478,16 @@ func runC08GoClient(e *sim.Env) {
 	}
 	var got []rec
 	phase := 0
+	handlerTime := time.Duration(p.C("handler_us")) * time.Microsecond
 	cli.Socket.OnEvent("ev", func(id int, text string) {
+		time.Sleep(handlerTime)
 		mu.Lock()
 		got = append(got, rec{id: int64(id), text: text, at: e.Now(), phase: phase})
 		mu.Unlock()
 		e.Log(100, "cli.event", "#%d text", id)
 	})
 	cli.Socket.OnEvent("evb", func(id int, b sio.Binary) {
+		time.Sleep(handlerTime)
 		mu.Lock()
 		got = append(got, rec{id: int64(id), bin: base64.StdEncoding.EncodeToString(b), at: e.Now(), phase: phase})
 		mu.Unlock()
